@@ -125,6 +125,34 @@ def abicompat_runs(P, d):
     return runs
 
 
+def symbol_only_pairs(d):
+    """(C) pairs whose difference is (partly) in ELF symbols that have no debug info: a library made of core.c (-g) and legacy.c (-g0);
+    version 2 removes / adds a function symbol and / or a variable symbol of legacy.c, with or without a type change in core.c.
+    -> [(tag, lib1, lib2)]"""
+    os.makedirs(d, exist_ok=True)
+    core = "struct S { int a; };\nint fn1(struct S* s) { return s->a; }\nint var1;\n"
+    def legacy(fns, vs):
+        return "".join("int lf%d(void) { return %d; }\n" % (i, i) for i in fns) + "".join("int lv%d = %d;\n" % (i, i) for i in vs)
+    def build(tag, core_src, fns, vs):
+        sub = os.path.join(d, tag)
+        os.makedirs(sub, exist_ok=True)
+        open(os.path.join(sub, "core.c"), "w").write(core_src)
+        open(os.path.join(sub, "legacy.c"), "w").write(legacy(fns, vs))
+        subprocess.run(["gcc", "-g", "-fPIC", "-c", "core.c"], cwd=sub, check=True)
+        subprocess.run(["gcc", "-g0", "-fPIC", "-c", "legacy.c"], cwd=sub, check=True)
+        subprocess.run(["gcc", "-shared", "-o", "lib.so", "core.o", "legacy.o"], cwd=sub, check=True)
+        return os.path.join(sub, "lib.so")
+    v1 = build("v1", core, [1, 2], [1, 2])
+    out = []
+    for bits in range(32):
+        rf, af, rv, av, ch = [(bits >> k) & 1 for k in range(5)]
+        fns = [1] + ([] if rf else [2]) + ([3] if af else [])
+        vs = [1] + ([] if rv else [2]) + ([3] if av else [])
+        tag = "v2-%s%s%s%s%s" % ("rf" * rf, "af" * af, "rv" * rv, "av" * av, "ch" * ch) if bits else "v2-same"
+        out.append((tag, v1, build(tag, core.replace("int a;", "int a; int b;") if ch else core, fns, vs)))
+    return out
+
+
 def main():
     c = vf.Check("C08", "model_checking")
     vf.build("hooks")
@@ -165,13 +193,37 @@ def main():
         return evs
 
     evB = [e for evs in vf.pmap(cmp_one, list(enumerate(cases))) for e in evs]
-    case_of = lambda ev: campaign.case_files(os.path.join(c.workdir, "p%d" % ev["case"])) if "case" in ev else {}
+
+    # (C) the same guard on pairs that differ in symbols without debug info (both directions)
+    sym_pairs = symbol_only_pairs(os.path.join(c.workdir, "symonly"))
+
+    def sym_one(job):
+        n, (tag, l1, l2) = job
+        evs = []
+        for a, b, direction in ((l1, l2, "1-2"), (l2, l1, "2-1")):
+            for o in optsets:
+                r = vf.run([abidiff, "--no-default-suppression"] + o + [a, b], env=vf.henv(os.path.dirname(l2)))
+                rep = report.parse(r.out)
+                has_sum = bool(rep["summary"]) or bool(rep["leaf"])
+                evs.append({"e": "Verdict", "tool": "abidiff", "case": 100000 + n, "opts": " ".join(o), "exit": r.exit, "hasSummary": has_sum or r.out == "",
+                            "summaryNet": report.has_net_change(rep), "ret": campaign.retof(r), "out": r.out[:500], "symonly": tag + " " + direction})
+        return evs
+    evC = [e for evs in vf.pmap(sym_one, list(enumerate(sym_pairs))) for e in evs]
+    c.cov["symbol_only_pairs"] = len(sym_pairs)
+    evB += evC
+    def case_of(ev):
+        if "symonly" in ev:
+            tag = ev["symonly"].split()[0]
+            return {"%s_%s" % (t, f): open(os.path.join(c.workdir, "symonly", t, f)).read() for t in ("v1", tag) for f in ("core.c", "legacy.c")} | {
+                "how.txt": "gcc -g -fPIC -c core.c; gcc -g0 -fPIC -c legacy.c; gcc -shared -o lib.so core.o legacy.o  (per version); abidiff --no-default-suppression %s <libs in direction %s>" % (ev["opts"], ev["symonly"].split()[1])}
+        return campaign.case_files(os.path.join(c.workdir, "p%d" % ev["case"])) if "case" in ev else {}
     vf.pmap(lambda i: c.validate("ToolsTrace.tla", "ToolsTrace.cfg", evB[i:i + 3000], case_of=case_of), range(0, len(evB), 3000), jobs=4)
     c.cov["evaluations"] = len(evA) + len(evB)
     c.cov["distinct_nontrivial"] = len({(e["tool"], e["args"], e["f1"], e["f2"], e.get("f3")) for e in evA}) + len({(e["case"], e["opts"]) for e in evB if e["exit"] != 0})
     c.cov["rule"] = ("(A) every pair of the 12 input classes for abidiff (and 8x8 library classes for abicompat) plus every argument class, constructed so that the class is known "
                      "independently; exit must equal Tools!AbidiffExit/AbicompatExit.  (B) TLC-generated program pairs with 0-3 mutations x 10 option sets: status lattice and "
-                     "change bit <=> parsed summary has a net change; non-trivial = distinct class tuples + distinct (pair, option set) with non-zero status")
+                     "change bit <=> parsed summary has a net change; (C) the same on 32 pairs x 2 directions that add / remove function and variable symbols without debug info (with and "
+                     "without a type change beside them); non-trivial = distinct class tuples + distinct (pair, option set) with non-zero status")
     for e in evA[:2] + evB[:2]:
         c.sample(e)
     c.finish()
